@@ -639,7 +639,8 @@ var decideSpecs = []*decideSpec{
 		params: "(collPath collPkgName collSrcPkg collTemplate ifacePath ifacePkgName ifaceSrcPkg ifaceTemplate : String)",
 		result: "Except String Unit",
 		atoms: map[string]string{
-			"i.outFilePath.String()": "collPath", "iface.Config.FilePath().String()": "ifacePath",
+			// (the paths are compared in their absolute form: fix "one file spelled two ways")
+			"absFilePath(i.outFilePath)": "collPath", "absFilePath(iface.Config.FilePath())": "ifacePath",
 			"i.outPkgName": "collPkgName", "*iface.Config.PkgName": "ifacePkgName",
 			"i.srcPkgPath": "collSrcPkg", "iface.Pkg.PkgPath": "ifaceSrcPkg",
 			"i.template": "collTemplate", "*iface.Config.Template": "ifaceTemplate",
